@@ -15,7 +15,8 @@ RULE = ("cases from rng(seed, 2, 0, i): a random graph of 1..40 edges over r2/r3
         "singular PSD information, scaled by 1e-14..1e12); every edge's calc_error/calc_chi2 and the graph's calc_chi2 are compared with the reference model; "
         "every 4th case is a consistent graph (measurements generated from the vertices by the reference model) checked for chi2=0 and "
         "chi2>0 after perturbing one measurement; every 5th checks linearity in Omega on twin edges; every 8th case is an operand history on one live edge (estimate / pose / offset / information replaced or modified in place between calls). distinct = fingerprint of the spec; "
-        "non-trivial = chi2 above 1e3 x rounding bound, or a consistent graph with >=3 edges.")
+        "non-trivial = chi2 above 1e3 x rounding bound, or a consistent graph with >=3 edges."
+        " later additions: sparse / singular / indefinite information (negative coefficients in the linearity check), graph chi2 vs the sum of each edge's own calc_chi2() incl. an overriding edge class, chi2 after optimize() followed by an external move.")
 REQ = ["eval:error-vs-reference", "eval:information-stored-as-given", "eval:chi2-vs-eT-Omega-e", "eval:graph-chi2-is-sum", "eval:optimize-initial-chi2-is-graph-chi2", "eval:consistent-graph-chi2-zero", "eval:perturbed-measurement-chi2-positive",
        "eval:chi2-linear-in-Omega", "eval:chi2-nonnegative-psd", "kind:odo-se3", "kind:lm-se3", "kind:lm-se2", "kind:lm-r2", "class:info:cross", "class:info:tiny_scale", "class:info:huge_scale", "class:q:wneg", "class:landmark_offset_rotated", "history_steps", "class:info:integer_dtype", "class:edges_prebound_to_stale_vertices", "class:graph_with_4000+_edges", "class:chi2_after_optimize_then_external_move", "class:info:sparse:zero_rows_and_blocks", "class:info:negative_coefficient(indefinite information)", "class:edge_overriding_calc_chi2_in_graph_sum"]
 PLAN = {
